@@ -97,6 +97,14 @@ func wxFa(v float64, canon string, good bool) *wAtom {
 	return &wAtom{jt: "num", canon: canon, f64: v, good: good, zero: v == 0 && !math.Signbit(v), val: true}
 }
 func wxSa(v string) *wAtom { return &wAtom{jt: "str", canon: v, str: v, good: true, zero: v == "", val: true} }
+func wxLongBytes(n int) []byte {
+	b := make([]byte, n)
+	for i := range b {
+		b[i] = byte(i*7 + 251)
+	}
+	return b
+}
+
 func wxBa(b ...byte) *wAtom {
 	return &wAtom{jt: "str", canon: base64.StdEncoding.EncodeToString(b), by: b, good: true, zero: len(b) == 0, val: true}
 }
@@ -151,6 +159,7 @@ func init() {
 	}
 	wireAtoms["bytes"] = map[string]*wAtom{
 		"zero": wxBa(), "len1": wxBa(0xfb), "len2": wxBa(0xfb, 0xff), "len3": wxBa(0xfb, 0xff, 0xfe), "len4": wxBa(0, 0x10, 0x83, 0x3f),
+		"len257": wxBa(wxLongBytes(257)...), "len1000": wxBa(wxLongBytes(1000)...),
 		"bad": wxJunk("str", "!!!!"), "badlen": wxJunk("str", "A"),
 	}
 	wireAtoms["timestamp"] = map[string]*wAtom{
@@ -162,10 +171,11 @@ func init() {
 		"bad": wxJunk("str", "yesterday"), "dateonly": wxJunk("str", "2024-02-29"),
 	}
 	wireAtoms["date"] = map[string]*wAtom{
-		"d0001": wxDa(1, 1, 1, "0001-01-01", true), "d0999": wxDa(999, 12, 31, "0999-12-31", true), "leap": wxDa(2024, 2, 29, "2024-02-29", true), "d9999": wxDa(9999, 12, 31, "9999-12-31", true),
+		"d0001": wxDa(1, 1, 1, "0001-01-01", true), "d0999": wxDa(999, 12, 31, "0999-12-31", true), "leap": wxDa(2024, 2, 29, "2024-02-29", true), "leap400": wxDa(2000, 2, 29, "2000-02-29", true), "d9999": wxDa(9999, 12, 31, "9999-12-31", true),
 		// C08 well-formedness only (outside the representable range)
 		"y0": wxDa(0, 0, 0, "0000-00-00", false), "y10000": wxDa(10000, 1, 1, "10000-01-01", false),
-		"bad": wxJunk("str", "hello"), "badcal": wxJunk("str", "2024-02-30"), "badparts": wxJunk("str", "2024-02"),
+		"bad": wxJunk("str", "hello"), "badcal": wxJunk("str", "2024-02-30"), "badleap100": wxJunk("str", "2100-02-29"), "badleap": wxJunk("str", "2023-02-29"),
+		"badmonth": wxJunk("str", "2024-13-01"), "badday0": wxJunk("str", "2024-06-00"), "badparts": wxJunk("str", "2024-02"),
 	}
 	wireAtoms["decimal"] = map[string]*wAtom{
 		"zero": wxDca("0"), "neg": wxDca("-1.50"), "big": wxDca("123456789012345678901234567890.5"), "small": wxDca("0.000001"), "exp": wxDca("1e3"), "int": wxDca("42"),
